@@ -33,6 +33,7 @@ func (t *QUIC) reuseConnection(_ context.Context, q *quic.Conn, s *quic.Stream, 
 	if err != nil {
 		return nil, false, fmt.Errorf("error sending identity: %w", err)
 	}
+	verifPoint("reuse.identsent", t, dir)
 	negotiation.Reset()
 
 	s.SetReadDeadline(time.Now().Add(quicConfig.HandshakeIdleTimeout))
@@ -56,6 +57,7 @@ func (t *QUIC) reuseConnection(_ context.Context, q *quic.Conn, s *quic.Stream, 
 		negotiation.Identity = identity.NodeIdentity()
 	}
 
+	verifPoint("reuse.identified", t, dir)
 	qKey := t.makeCachedKey(negotiation.GetIdentity())
 	fresh := &nodeConnection{
 		peer:      negotiation.GetIdentity(),
@@ -89,6 +91,7 @@ func (t *QUIC) reuseConnection(_ context.Context, q *quic.Conn, s *quic.Stream, 
 	if err != nil {
 		return nil, false, fmt.Errorf("error sending cache status: %w", err)
 	}
+	verifPoint("reuse.cachesent", t, dir)
 	negotiation.Reset()
 
 	s.SetReadDeadline(time.Now().Add(quicConfig.HandshakeIdleTimeout))
@@ -98,6 +101,7 @@ func (t *QUIC) reuseConnection(_ context.Context, q *quic.Conn, s *quic.Stream, 
 	}
 	s.SetReadDeadline(time.Time{})
 
+	verifPoint("reuse.decide", t, dir)
 	unlock := t.cachedMutex.Lock(qKey)
 	defer unlock()
 
